@@ -21,8 +21,9 @@ from props import pipe_common
 STEP = 1400   # lcm(1400, 100): default primary / secondary resolution
 
 
-def lattice_input(rng: random.Random):
+def lattice_input(rng: random.Random, inverted_repeat: bool = False):
     refs = []
+    blocks = {}
     for rid in (3, 8):
         n = rng.randint(70, 140)
         x = STEP * rng.randint(2, 10)
@@ -30,6 +31,21 @@ def lattice_input(rng: random.Random):
         for _ in range(n):
             xs.append(x)
             x += STEP * (2 + min(int(rng.expovariate(1 / 4.5)), 30))
+        if inverted_repeat and rid == 3:
+            # an inverted repeat: the block of labels b0..b0+nb-1 occurs again further along the same contig, read from
+            # the other end; a molecule from inside the block has two equally good placements, on opposite strands
+            nb = rng.randint(26, 40)
+            b0 = rng.randint(5, n - nb - 5)
+            block = xs[b0:b0 + nb]
+            start = xs[-1] + STEP * rng.randint(3, 12)
+            xs = xs + [start + (block[-1] - v) for v in reversed(block)]
+            x = xs[-1]
+            for _ in range(rng.randint(8, 20)):
+                x += STEP * (2 + min(int(rng.expovariate(1 / 4.5)), 30))
+                xs.append(x)
+            blocks[rid] = (b0, nb)
+            refs.append({"id": rid, "len": (xs[-1] + STEP * rng.randint(1, 50)) * 10, "x": [v * 10 for v in xs], "bp": xs})
+            break          # this contig alone: few seed peaks, the tie between the two loci decides
         refs.append({"id": rid, "len": (xs[-1] + STEP * rng.randint(1, 50)) * 10, "x": [v * 10 for v in xs], "bp": xs})
     qrys = []
     qid = 10
@@ -39,6 +55,13 @@ def lattice_input(rng: random.Random):
         w = rng.randint(14, 40)
         w0 = rng.randint(3, len(xs) - w - 3)
         style = k % 3
+        if blocks and k < 4:                  # from inside the repeated block
+            ref = refs[0]
+            xs = ref["bp"]
+            b0, nb = blocks[3]
+            w = rng.randint(14, nb - 4)
+            w0 = b0 + rng.randint(1, nb - w - 1)
+            style = k % 2
         labs = []
         for i in range(w0, w0 + w):
             if style >= 1 and rng.random() < 0.12 and i not in (w0, w0 + w - 1):
@@ -67,7 +90,7 @@ def lattice_input(rng: random.Random):
 def one_input(args):
     seed, idx, workroot = args
     rng = random.Random(seed * 48611 + idx)
-    inp = lattice_input(rng)
+    inp = lattice_input(rng, inverted_repeat=(idx % 4 in (1, 3)))
     wd = os.path.join(workroot, f"c11-{os.getpid()}-{idx}")
     extra = [{"-d": 600}, {"-d": 600, "-p": 5}, {"-d": 300, "-ms": 2000, "-bs": 1500}, {"-d": 600, "-sj": 0.5, "-ss": 1}][idx % 4]
     try:
